@@ -414,12 +414,20 @@ def eval_cases(ctx: Ctx, kernel: str, imports: list, cases: list, chunk: int = 4
     return len(bad_idx)
 
 
+CLASS_IMPORTS = ["gen.Tables", "model.Cfg", "model.Names", "model.Wildcard", "model.Addr", "model.Ports", "model.Ace",
+                 "model.Lex", "model.AddrText", "model.AceText", "model.AclText", "model.Shading", "model.SplitPorts",
+                 "model.Platform", "model.Ops", "run.RunText", "run.RunClass"]
+
+
 def count_true(ctx: Ctx, kernel: str, imports: list, exprs: list, chunk: int = 400) -> Optional[int]:
     """How many of the boolean Coq expressions evaluate to true (vm_compute inside coqc)?  Used to
     count the explored cases that lie inside the class of a certificate-free theorem (informational:
     the count decides nothing; a file that does not evaluate is recorded as a note)."""
     if not exprs:
         return 0
+    if not build(None, ["run/RunText.vo", "run/RunClass.vo"]):      # the checker sits behind the long proof chain: never fatal here
+        ctx.notes.append(f"kernel {kernel}: run/RunClass.vo did not build, class count skipped")
+        return None
     wd = os.path.join(ctx.workdir, kernel)
     os.makedirs(wd, exist_ok=True)
     files = []
